@@ -14,6 +14,7 @@
 (*   NextLevel  pair_list = new_pairs; k += 1; the while test and the final `if k >= maxits: raise`. *)
 (*                                                                                                  *)
 (* Variant = "code":    boxes_intersect demands an overlap of positive width (as in the code).       *)
+(* Variant = "code-old": in addition the pair list is mutated while it is iterated (before 650ddc2). *)
 (* Variant = "correct": closed boxes, no removal from the iterated list, a candidate is new unless   *)
 (*                      both its pieces touch the pieces of an earlier candidate (the design that    *)
 (*                      satisfies NoLoss / Once for transversal straight segments).                  *)
@@ -29,8 +30,8 @@ Pow(b, e) == IF e = 0 THEN 1 ELSE b * Pow(b, e-1)
 S == Pow(2, K + 1)
 Min(a, b) == IF a < b THEN a ELSE b
 Max(a, b) == IF a > b THEN a ELSE b
-VARIABLES in, k, plist, oi, newp, found, pts, visits, phase, raised, cands
-vars == <<in, k, plist, oi, newp, found, pts, visits, phase, raised, cands>>
+VARIABLES in, k, plist, oi, newp, found, pts, visits, phase, raised, cands, removed
+vars == <<in, k, plist, oi, newp, found, pts, visits, phase, raised, cands, removed>>
 \* scaled coordinate of curve c (1 or 2) at parameter n / S
 PX(c, n) == IF c = 1 THEN in.a[1] * S + (in.b[1] - in.a[1]) * n ELSE in.c[1] * S + (in.d[1] - in.c[1]) * n
 PY(c, n) == IF c = 1 THEN in.a[2] * S + (in.b[2] - in.a[2]) * n ELSE in.c[2] * S + (in.d[2] - in.c[2]) * n
@@ -41,7 +42,7 @@ XMin(c, kk, i) == Min(PX(c, Lo(kk, i)), PX(c, Hi(kk, i)))
 XMax(c, kk, i) == Max(PX(c, Lo(kk, i)), PX(c, Hi(kk, i)))
 YMin(c, kk, i) == Min(PY(c, Lo(kk, i)), PY(c, Hi(kk, i)))
 YMax(c, kk, i) == Max(PY(c, Lo(kk, i)), PY(c, Hi(kk, i)))
-Ov(a, b, c, d) == IF Variant = "code" THEN Min(b, d) - Max(a, c) > 0 ELSE Max(a, c) <= Min(b, d)
+Ov(a, b, c, d) == IF Variant # "correct" THEN Min(b, d) - Max(a, c) > 0 ELSE Max(a, c) <= Min(b, d)
 Closed(a, b, c, d) == Max(a, c) <= Min(b, d)
 Hit(kk, p) == /\ Ov(XMin(1, kk, p[1]), XMax(1, kk, p[1]), XMin(2, kk, p[2]), XMax(2, kk, p[2]))
               /\ Ov(YMin(1, kk, p[1]), YMax(1, kk, p[1]), YMin(2, kk, p[2]), YMax(2, kk, p[2]))
@@ -74,20 +75,27 @@ Inputs == { r \in [a : Lat \X Lat, b : Lat \X Lat, c : Lat \X Lat, d : Lat \X La
 InputsAnchored == { r \in Inputs : r.a = <<0, 0>> \/ r.c = <<0, 1>> }      \* a sixth of the inputs, for the quick tier
 Init == /\ in \in Ins
         /\ k = 0 /\ plist = << <<0, 0>> >> /\ oi = 1 /\ newp = <<>> /\ found = <<>> /\ pts = <<>> /\ visits = <<>> /\ cands = <<>>
-        /\ phase = "loop" /\ raised = FALSE
-Visit == /\ phase = "loop" /\ oi <= Len(plist)
+        /\ phase = "loop" /\ raised = FALSE /\ removed = {}
+\* Variant "code" (since 650ddc2): the loop runs over a copy of pair_list; a pair that an earlier acceptance removed is skipped without being looked at;
+\* an acceptance removes *every* pair sharing a piece with the accepted one.  Variant "code-old" is the loop as it was: removal from the list being
+\* iterated, so that the iterator skips the element after each removed one (Rm) - pairs of another crossing were dropped unvisited.
+Skip == /\ phase = "loop" /\ oi <= Len(plist) /\ Variant = "code" /\ plist[oi] \in removed
+        /\ oi' = oi + 1
+        /\ UNCHANGED <<in, k, plist, newp, found, pts, visits, phase, raised, cands, removed>>
+Visit == /\ phase = "loop" /\ oi <= Len(plist) /\ ~(Variant = "code" /\ plist[oi] \in removed)
          /\ LET p == plist[oi]
                 hit == Hit(k, p)
                 sm == hit /\ SmallBox(1, k, p[1]) /\ SmallBox(2, k, p[2])
                 pt == <<PX(1, Mid(k, p[1])), PY(1, Mid(k, p[1]))>>
-                new == Variant = "code" /\ ~InSet(pt)
+                new == Variant # "correct" /\ ~InSet(pt)
             IN /\ visits' = Append(visits, [k |-> k, i |-> p[1], j |-> p[2], hit |-> hit, small |-> sm])
                /\ IF sm THEN /\ found' = IF new THEN Append(found, [k |-> k, i |-> p[1], j |-> p[2]]) ELSE found
                              /\ pts' = IF new THEN Append(pts, pt) ELSE pts
                              /\ cands' = Append(cands, <<k, p[1], p[2]>>)
-                             /\ plist' = IF Variant = "code" THEN Rm(plist, 1, p) ELSE plist
+                             /\ plist' = IF Variant = "code-old" THEN Rm(plist, 1, p) ELSE plist
+                             /\ removed' = IF Variant = "code" THEN removed \cup { plist[n] : n \in { m \in 1..Len(plist) : Shares(plist[m], p) } } ELSE removed
                              /\ newp' = newp
-                  ELSE /\ UNCHANGED <<found, pts, cands, plist>>
+                  ELSE /\ UNCHANGED <<found, pts, cands, plist, removed>>
                        /\ newp' = IF hit THEN newp \o Children(p) ELSE newp
          /\ oi' = oi + 1
          /\ UNCHANGED <<in, k, phase, raised>>
@@ -96,8 +104,9 @@ NextLevel == /\ phase = "loop" /\ oi > Len(plist)
              /\ phase' = IF newp = <<>> \/ k + 1 >= MaxIts THEN "done" ELSE "loop"
              /\ raised' = (k + 1 >= MaxIts)
              /\ found' = IF Variant = "correct" /\ (newp = <<>> \/ k + 1 >= MaxIts) THEN ClusterFound ELSE found
+             /\ removed' = {}
              /\ UNCHANGED <<in, pts, visits, cands>>
-Next == Visit \/ NextLevel
+Next == Visit \/ Skip \/ NextLevel
 Spec == Init /\ [][Next]_vars
 \* ---------- the exact crossing of the two segments
 Cr(u, v) == u[1] * v[2] - u[2] * v[1]
